@@ -137,6 +137,18 @@ func (f *FS) FailAfter(k int, mode FailMode) {
 	f.failMode = mode
 }
 
+// OnMutate installs a callback that is invoked right before every mutating call
+// that is going to be applied (not for calls that fail or crash), with the number
+// of calls logged so far (= the crash point in front of this call). Harnesses
+// use it to order their own events (sends, ...) relative to file-system calls.
+// The callback runs with the instance locked: it must not call into the
+// instance. nil removes it.
+func (f *FS) OnMutate(fn func(logLen int)) {
+	f.mu.Lock()
+	defer f.mu.Unlock()
+	f.onMutate = fn
+}
+
 // Frozen reports whether a simulated crash has happened on this instance.
 func (f *FS) Frozen() bool {
 	f.mu.Lock()
@@ -168,11 +180,13 @@ func Catch(fn func()) (crash *Crash) {
 // being executed.
 func (f *FS) gate(call string) error {
 	if !f.frozen {
-		if !f.failArmed {
-			return nil
-		}
-		if f.failLeft > 0 {
-			f.failLeft--
+		if !f.failArmed || f.failLeft > 0 {
+			if f.failArmed {
+				f.failLeft--
+			}
+			if f.onMutate != nil {
+				f.onMutate(len(f.log))
+			}
 			return nil
 		}
 		f.frozen = true
